@@ -214,6 +214,8 @@ def run_F(chk):
             for n in A.walk_local(f.node):
                 if isinstance(n, ast.Assign) and isinstance(n.targets[0], ast.Name) and any(isinstance(x, ast.Name) and x.id in names for x in ast.walk(n.value)):
                     names.add(n.targets[0].id)
+                if isinstance(n, ast.AugAssign) and isinstance(n.target, ast.Name) and any(isinstance(x, ast.Name) and x.id in names for x in ast.walk(n.value)):
+                    names.add(n.target.id)
             guard = [n for n in A.walk_local(f.node) if isinstance(n, ast.If) and isinstance(n.test, ast.Name) and n.test.id in names]
             ok = False
             for g in guard:
@@ -225,6 +227,38 @@ def run_F(chk):
                                and x.func.attr == "_replace" and any(k.arg == "hfs" for k in x.keywords)]
                         if not rep:
                             ok = False
+            # a verdict obtained pair by pair inside a loop must be accumulated (or-ed) into the flag that guards after the loop
+            par = A.enclosing_map(f.node)
+            loop = None
+            cur = c
+            while cur in par:
+                cur = par[cur]
+                if isinstance(cur, (ast.For, ast.While)):
+                    loop = cur
+                    break
+            if loop is not None:
+                for g in guard:
+                    if g in list(ast.walk(loop)):
+                        continue
+                    G = g.test.id
+                    inloop = [n for b_ in loop.body for n in ast.walk(b_) if isinstance(n, (ast.Assign, ast.AugAssign))
+                              and G in A.assigned_names(n.targets[0] if isinstance(n, ast.Assign) else n.target)]
+                    for n in inloop:
+                        mono = False
+                        if isinstance(n, ast.AugAssign) and isinstance(n.op, ast.BitOr):
+                            mono = True
+                        elif isinstance(n, ast.Assign):
+                            v = n.value
+                            if isinstance(v, ast.Constant) and v.value is True:
+                                mono = True
+                            elif isinstance(v, ast.BoolOp) and isinstance(v.op, ast.Or) and any(isinstance(x, ast.Name) and x.id == G for x in v.values):
+                                mono = True
+                            elif isinstance(v, ast.BinOp) and isinstance(v.op, ast.BitOr) and G in (A.text(v.left), A.text(v.right)):
+                                mono = True
+                        chk.verdict("F2", (f, n), f"{name}: `{G}` accumulates the pairwise verdicts (`{A.short(n, 50)}`)", True if mono else False,
+                                    f"{name}(): the flag `{G}` that decides after the loop whether operands are embedded/masked is overwritten in "
+                                    f"every iteration (`{A.short(n, 60)}`): only the last pair of operands decides; a mismatch between the first "
+                                    f"operand and an earlier one is ignored whenever the last pair matches (3 or more operands)")
             chk.verdict("F2", (f, c), f"{name}: `{verdict}` guards {helpers}", True if ok else False,
                         f"{name}(): the verdict `{verdict}` of the fusion test does not guard the masking/embedding of mismatched legs "
                         f"({', '.join(helpers)}) followed by the replacement of the fusion histories")
